@@ -97,8 +97,11 @@ public:
         }
     }
     // end of run: nothing may be live; quarantined blocks must be untouched
-    void finish() {
-        if (!live_.empty()) {
+    // leaks_are_errors: only where the property itself says that storage is returned (C02 nodes, splay
+    // nodes); elsewhere a block that is never returned is counted (leaked_blocks()), not judged
+    void finish(bool leaks_are_errors = true) {
+        leaked_ = live_.size();
+        if (!live_.empty() && leaks_are_errors) {
             size_t bytes = 0;
             for (auto& kv : live_) bytes += kv.second.bytes;
             error(std::to_string(live_.size()) + " block(s) (" + std::to_string(bytes) + " bytes) never returned to the allocator");
@@ -109,10 +112,12 @@ public:
     }
     const std::vector<std::string>& errors() const { return errors_; }
     size_t live_blocks() const { return live_.size(); }
+    size_t leaked_blocks() const { return leaked_; }
     size_t allocations() const { return n_alloc_; }
     size_t recycled() const { return n_recycled_; }
 
 private:
+    size_t leaked_ = 0;
     void error(const std::string& e) { if (errors_.size() < 8) errors_.push_back(e); }
     void verify_poison(const Block& q) {
         SIM_UNPOISON(q.base, q.bytes + 2 * GUARD);
